@@ -11,6 +11,8 @@ PRELUDE = """    #[diplomat::opaque]
     pub struct St2b<'p, 'q: 'p> { pub f: &'p Opq, pub g: &'q Opq }
     pub struct Nst2<'p, 'q> { pub a: St1<'p>, pub b: St2<'q, 'q> }
     pub struct StV<'p, 'q> { pub f: &'p OpLt<'q>, pub s: DiplomatSlice<'q, u8> }
+    #[diplomat::attr(auto, error)]
+    pub struct Er1<'p> { pub f: &'p Opq }
 """
 ALLFEATURES = {"name": "verif", "other": [], "supports": profiles.FEATURES}
 
@@ -39,7 +41,9 @@ def rty(r):
     return {"ropq": lambda: amp(s[0]) + "Opq", "roptopq": lambda: "Option<%sOpq>" % amp(s[0]),
             "rslice": lambda: amp(s[0]) + "str", "rbox": lambda: "Box<OpLt<%s>>" % lt(s[0]),
             "rst1": lambda: "St1<%s>" % lt(s[0]), "rst2": lambda: "St2<%s, %s>" % (lt(s[0]), lt(s[1])),
-            "ropqlt": lambda: "%sOpLt<%s>" % (amp(s[0]), lt(s[1]))}[k]()
+            "ropqlt": lambda: "%sOpLt<%s>" % (amp(s[0]), lt(s[1])),
+            "rerr1": lambda: "Result<(), Er1<%s>>" % lt(s[0]), "rwerr1": lambda: "Result<(), Er1<%s>>" % lt(s[0]),
+            "rokerr": lambda: "Result<%sOpq, Er1<%s>>" % (amp(s[0]), lt(s[1]))}[k]()
 
 
 def generics(L, decl):
@@ -52,7 +56,8 @@ def generics(L, decl):
 
 def render(n, sig, L):
     decl = [tuple(x) for x in sig["decl"]]
-    ps = ", ".join("%s: %s" % ("xy"[i], pty(p)) for i, p in enumerate(sig["params"]))
+    ps = ", ".join(["%s: %s" % ("xy"[i], pty(p)) for i, p in enumerate(sig["params"])] +
+                   (["w: &mut DiplomatWrite"] if sig["ret"]["kind"] == "rwerr1" else []))
     sk = sig["self"]["kind"]
     if sk == "sf2b":
         sl = sig["self"]["slots"][0]
@@ -64,7 +69,7 @@ def render(n, sig, L):
 
 
 def module(items):
-    return "#[diplomat::bridge]\nmod ffi {\n    use diplomat_runtime::DiplomatSlice;\n" + PRELUDE + "\n".join(items) + "}\n"
+    return "#[diplomat::bridge]\nmod ffi {\n    use diplomat_runtime::{DiplomatSlice, DiplomatWrite};\n" + PRELUDE + "\n".join(items) + "}\n"
 
 
 def run_edges(wd, batches, tag):
@@ -286,6 +291,9 @@ def run(rep, tier):
     gn = lib.tlc("life", "MC_Lifetimes", "gc_neg.cfg", workers=8, coverage=False)
     lib.tlc_expect_violation(gn, "GcSafety minus one edge", "NoUseAfterFree")
     rep.extra["negative_models_refuted"] = 1
+    rep.extra["tlaps"] = {"module": "spec/life/LifetimesProof.tla",
+                          "theorem": "Spec => []NoUseAfterFree for any lifetime set, signature and schedule of host drops and collections",
+                          "obligations_proved": lib.tlaps("life", "LifetimesProof")}
     e = lib.tlc("life", "MC_Lifetimes", "emit_quick.cfg", workers=2, coverage=False, heap="8g")
     lib.tlc_expect_ok(e, "signature emission")
     rep.add_tlc("Lifetimes/emit", e)
